@@ -197,14 +197,15 @@ CLAIMED = {
 }
 NA = {}
 
-# additions of rounds 5-6 (DESIGN.md 10.10, 10.11), appended to the claim texts
+# additions of rounds 5-7 (DESIGN.md 10.10 - 10.12), appended to the claim texts
 ADD = {
  "C01": " Added: G11 - the argument interpreter (check_next_arg + iscomplete) interpreted call by call over 12 sample slot definitions x ~100 "
         "argument sequences x extension sets against the slot format; P16 - the `,`/`)` expectation after a closed test is decided on the ancestor the "
         "climb ends on; P17 - every token that can follow a test reaches the reassignment of a test with an optional leading argument before the "
         "enclosing list consumes it (found the hasflag-in-a-test-list defect, repaired by 0ff9c98); L7 compares a repeat with the first set of what follows.",
  "C02": " Added: X16 - bytes-only operations on parse()'s own parameter come after its str->bytes conversion; the crash clause of G11 (the argument "
-        "interpreter raises nothing but its own three exceptions on the sample sequences); X4 leaves out raises taken only for non-str/bytes arguments "
+        "interpreter raises nothing but its own three exceptions on the sample sequences and on the repository's own valid_for definitions); X17 - "
+        "locals the funnel's handler reads are bound before the try; X4 leaves out raises taken only for non-str/bytes arguments "
         "or re-entered parse(); X7 looks at the guards of every reachable call site.",
  "C03": " Added: G11 (answers, recorded arguments, completeness on sample sequences), T3' by evaluation (reassign_arguments of every overriding "
         "command on its own definition), P16, P17, P14 generalised (list renewed at hand-over).",
@@ -212,15 +213,18 @@ ADD = {
  "C07": " Added: E2 (lookup), E6 (complete_cb), E4 (value gate) and E3/E7 (through G11) decided by evaluation over registries that also hold parts "
         "of the names needed; every extension name of the tables required alone must load nothing but itself.",
  "C08": " Added: W10 - each formatted argument read back as a server reads it (29 values); W9 with lines at the sender's own block sizes; the "
-        "lifetime rule for a client-level write accumulator reached through a local.",
+        "lifetime rule for a client-level write accumulator reached through a local; SD1 - no mutable parameter default is modified in place or kept.",
  "C10": " Added: the reader rules of C05 (M1-M7) are part of this check (`ended with OK` is what the readers make of the bytes).",
  "C11": " Added: the lexer rules of C01 (L1-L4) are part of this check (the saved script must be one the parser accepts).",
  "C12": " Added: the caller's match type reaches the builder; a guard around a bare action is recognised as a guard.",
- "C13": " Added: H2 pairing rule for a `parse is running` flag (set at entry, cleared in a finally, nothing raising in between); H4 for a registry "
+ "C13": " Added: SD1 (no mutable parameter default modified or kept in parser.py / commands.py / factory.py); H2 pairing rule for a `parse is running` flag (set at entry, cleared in a finally, nothing raising in between); H4 for a registry "
         "read through an instance.",
  "C16": " Added: connect's ordering rules (A1-A7 of C10) and the reader rules of C05 are part of this check.",
  "C19": " Added: the loader rules of C11 (N1-N4) are part of this check (`... and on a set reloaded from its rendered script`).",
- "C20": " Added: G11, P14 and H2 are part of this check.",
+ "C20": " Added: G11, P14, H2 and the lexer rules of C01 are part of this check.",
+ "C06": " Added: the lexer rules of C01 (L1-L4) are part of this check (what the factory escapes correctly must lex as part of its string).",
+ "C14": " Added: the reader rules of C05 (M1-M7) are part of this check (the copied content is what the readers make of the GETSCRIPT reply).",
+ "C18": " Added: the lexer rules of C01 (L1-L4) are part of this check (the reported length is the extent the token rules give the token).",
 }
 
 def rules_now(pid):
